@@ -153,6 +153,12 @@ func RunC12(ctx *core.Ctx) *core.Violation {
 	if n > 300 {
 		n = 300 + n/10
 	}
+	big := t.Chance(1, 60)
+	if big {
+		// sizes around the thresholds an implementation might special-case
+		n = t.Pick(255, 256, 257, 4095, 4096, 4097, 8192, 65535, 65536, 65537, 70000) + t.Draw(3) - 1
+		ctx.Count("probe_big_input")
+	}
 	alphabet := t.Draw(4)
 	var data []byte
 	if alphabet == 3 {
@@ -279,6 +285,53 @@ func RunC12(ctx *core.Ctx) *core.Violation {
 	}
 	stopN := t.Pick(8, 32, 96)
 	restoreLast := t.Chance(1, 2)
+	// A second, independent instance of the same kind over other data of the same length is
+	// created in the middle of the history and used a little; the first instance must go on
+	// ranging over exactly its own bytes (callers routinely have several Inputs alive).
+	siblingAt := -1
+	if t.Chance(1, 3) {
+		siblingAt = t.Draw(12)
+	}
+	makeSibling := func() *core.Violation {
+		other := make([]byte, len(data))
+		if ctor == ctorNil {
+			other = nil
+		}
+		for i := range other {
+			other[i] = data[i] ^ 0x55
+		}
+		var sib cursor
+		switch ctor {
+		case ctorReader:
+			sib = mkR(faultio.NewReader(ctx, other, faultio.Plan{FailAt: -1, Chunk: faultio.ChunkFixed, Fixed: 1024}))
+		case ctorString:
+			sib = parse.NewInputString(string(other))
+		case ctorNil:
+			sib = mkR(nil)
+		case ctorBufferReader:
+			sib = mkR(buffer.NewReader(other))
+		case ctorBytesBuffer:
+			sib = mkR(bytes.NewBuffer(other))
+		default:
+			sib = mk(other)
+		}
+		ctx.Count("probe_sibling_instance")
+		for i := 0; i < len(other) && i < 5; i++ {
+			if sib.Peek(0) != other[i] {
+				return m.viol("sibling-wrong", "a second instance over other data returns %#x at offset %d, want %#x", sib.Peek(0), i, other[i])
+			}
+			sib.Move(1)
+		}
+		sib.Shift()
+		sib.Restore()
+		if got := m.z.Bytes(); !eq(got, m.data) {
+			return m.viol("instances-not-independent", "after a second %s was created over other data of the same length, Bytes() of the first instance changed", typ)
+		}
+		if m.pos < N && m.z.Peek(0) != m.data[m.pos] {
+			return m.viol("instances-not-independent", "after a second %s was created, Peek(0) of the first instance = %#x, want %#x", typ, m.z.Peek(0), m.data[m.pos])
+		}
+		return nil
+	}
 
 	step := func() *core.Violation {
 		op := t.Weighted(w[:]...)
@@ -499,6 +552,20 @@ func RunC12(ctx *core.Ctx) *core.Violation {
 	for ops := 0; ops < 300; ops++ {
 		if t.Draw(stopN) == 0 {
 			break
+		}
+		if ops == siblingAt {
+			if v := makeSibling(); v != nil {
+				return v
+			}
+		}
+		if big && N > 0 && t.Chance(1, 6) {
+			// jump next to a threshold position or to the end
+			target := t.Pick(255, 256, 4095, 4096, 65535, 65536, N-1, N, N-3) + t.Draw(3) - 1
+			if target >= m.start && target <= N {
+				m.z.Move(target - m.pos)
+				ctx.L.Ev("Move", int64(target-m.pos))
+				m.pos = target
+			}
 		}
 		if v := step(); v != nil {
 			return v
